@@ -247,6 +247,10 @@ func (r *storeRun) exec(st stepJ) repJ {
 	switch {
 	case op.TTL != 0 && r.nctx%3 == 1:
 		ctx = cache.WithTTL(cache.WithTTL(ctx, -7*r.u, false), TickDur(op.TTL, r.u), false)
+	case op.TTL < 0 && r.nctx%3 == 2:
+		// a negative TTL that later meets a positive update keeps its value ("the minimal non-zero value is kept")
+		ctx = cache.WithTTL(ctx, TickDur(op.TTL, r.u), false)
+		_ = cache.WithTTL(ctx, 5*r.u, true)
 	case op.TTL != 0:
 		ctx = cache.WithTTL(ctx, TickDur(op.TTL, r.u), true)
 	case r.nctx%3 == 1:
